@@ -34,7 +34,7 @@ func classes(msg string) string {
 	}
 	if has("expected type") || has("unconvertible type") || has("expected a map") || has("must be an array or slice") ||
 		has("needs a map with string keys") || has("overflows uint") || has("unexpected config type") ||
-		has("number is not an integer") {
+		has("number is not an integer") || has("number is out of range") {
 		set["type"] = true
 	}
 	if has("plugin type expected") || has("has non-string value") || has("too many type keys") {
@@ -121,11 +121,18 @@ func force(v reflect.Value, errs *[]string) {
 	}
 }
 
-func runDecode(root string, cfg any) (obs string) {
+func runDecode(root string, cfg any, skipCtor bool) (obs string) {
 	defer func() {
 		if r := recover(); r != nil {
 			// a panic while a configuration is read is never an acceptable outcome
-			obs = "PANIC " + drv.Trunc(drv.Clean(strings.ReplaceAll(fmt.Sprint(r), " ", "_")), 120)
+			msg := fmt.Sprint(r)
+			if skipCtor && (strings.Contains(msg, "makechan") || strings.Contains(msg, "makeslice") || strings.Contains(msg, "out of memory")) {
+				// a component built from an accepted config with an absurdly large (but representable) size: the
+				// constructor's allocation fails; not an outcome of config decoding
+				obs = "err=ctor"
+				return
+			}
+			obs = "PANIC " + drv.Trunc(drv.Clean(strings.ReplaceAll(msg, " ", "_")), 120)
 		}
 	}()
 	_, target := rootTarget(root)
@@ -133,7 +140,7 @@ func runDecode(root string, cfg any) (obs string) {
 	if err != nil {
 		return "err=" + classes(err.Error())
 	}
-	if strings.HasPrefix(root, "alt|") {
+	if strings.HasPrefix(root, "alt|") && !skipCtor {
 		// the registered constructor on the accepted config (what pluginconfig.Hook does next); only a panic matters here
 		parts := strings.SplitN(root, "|", 3)
 		for _, iface := range regOrder {
@@ -222,8 +229,16 @@ func applyInput(kv map[string]string) {
 	}
 }
 
+// probeMu serialises the cases decoded into the driver's probe plugins: their default config holds a map, and a tree that
+// shares one default object between decodes would otherwise end the whole run with "concurrent map writes"
+var probeMu sync.Mutex
+
 func run(input string) string {
 	kv := drv.KV(input)
+	if r := dec(kv["root"]); r == "probe" || strings.HasPrefix(r, "alt|"+probeIface.String()+"|") {
+		probeMu.Lock()
+		defer probeMu.Unlock()
+	}
 	cfgT, err := parseTerm(kv["cfg"])
 	if err != nil {
 		return "BADINPUT " + err.Error()
@@ -240,7 +255,13 @@ func run(input string) string {
 	if kv["kind"] == "cli" {
 		return runCli(cfg) + sch
 	}
-	return runDecode(root, cfg) + sch
+	// numbers at the edge of a type's range: what a component does with an absurdly large size is not config decoding
+	first := runDecode(root, cfg, kv["kind"] == "num")
+	// the SAME data decoded once more into a fresh target: the outcome is the same (decoding does not consume its input)
+	if second := runDecode(root, cfg, true); second != first && !strings.HasPrefix(first, "PANIC") {
+		return "UNSTABLE first=" + drv.Trunc(first, 200) + " second=" + drv.Trunc(second, 200) + sch
+	}
+	return first + sch
 }
 
 // ---- the CLI config reader (cli.readConfig), in a child process because it ends the process on a bad config
